@@ -80,7 +80,7 @@ PROPS = {
                   "Orbit.C05.replication_never_forgets_cached_heads", "Orbit.C05.on_fully_loaded_stores_the_cache_is_the_heads_of_the_log",
                   "Orbit.C05.limited_load_then_replication_forgot_a_branch_before_the_fix", "Orbit.C05.reload_joins_only_entries_join_accepts", "Orbit.C05.refused_ancestor_lost_the_valid_entries_above_it_before_the_fix", "Orbit.C05.replication_never_shrinks_what_the_cache_reaches",
                   "Orbit.C05.reload_succeeds_only_over_every_cached_head", "Orbit.C05.reload_under_an_ended_context_reported_success_before_the_fix",
-                  "Orbit.C05.write_never_forgets_cached_heads", "Orbit.C05.write_never_shrinks_what_the_cache_reaches", "Orbit.C05.write_after_snapshot_load_forgot_later_writes_before_the_fix"],
+                  "Orbit.C05.write_never_forgets_cached_heads", "Orbit.C05.write_never_shrinks_what_the_cache_reaches", "Orbit.C05.write_after_snapshot_load_forgot_later_writes_before_the_fix", "Orbit.C05.load_steps_tied_to_go_text"],
         families=[("routes", 100, 3000, 14), ("kv", 40, 1000, 12), ("reload", 40, 1000, 12), ("limit", 40, 1000, 12), ("forge", 30, 800, 10), ("snapshot", 40, 1000, 10)],
         corr_fields={"values", "heads", "idx", "len", "local", "remote", "load", "rev"},
         nontrivial=lambda lines: any(l.startswith("restarted ") for l in lines) and sum(1 for l in lines if l.startswith("entry ")) >= 2,
@@ -186,7 +186,7 @@ PROPS = {
                   "Orbit.C20.each_change_reported_once", "Orbit.C20.own_messages_filtered", "Orbit.C20.channel_name_symmetric",
                   "Orbit.C20.channel_name_identifies_pair", "Orbit.C20.frame_roundtrip", "Orbit.C20.length_prefix_roundtrip",
                   "Orbit.C20.oversize_refused", "Orbit.C20.accepted_length_within_limit", "Orbit.C20.tied_to_go_text",
-                  "Orbit.C20.every_watcher_is_told_about_present_peers", "Orbit.C20.shared_membership_hid_present_peers_from_a_later_watcher", "Orbit.C20.each_peer_is_subscribed_once", "Orbit.C20.connect_order_tied_to_go_text", "Orbit.C20.a_lock_released_around_subscribe_would_deliver_twice"],
+                  "Orbit.C20.every_watcher_is_told_about_present_peers", "Orbit.C20.shared_membership_hid_present_peers_from_a_later_watcher", "Orbit.C20.each_peer_is_subscribed_once", "Orbit.C20.connect_order_tied_to_go_text", "Orbit.C20.a_lock_released_around_subscribe_would_deliver_twice", "Orbit.C20.watcher_closes_its_subscription_tied_to_go_text"],
         families=[("transport", 100, 4000, 8), ("oneonone", 3, 40, 1)],
         corr_fields={"tevents"},
         nontrivial=lambda lines: sum(1 for l in lines if l.startswith("op tpeers") and ";" in l) >= 1 or any(l.startswith("op tone") for l in lines),
@@ -223,7 +223,7 @@ PROPS = {
         module="OrbitModel.Properties.C15",
         theorems=["Orbit.C15.effective_limit", "Orbit.C15.trim_panics_iff", "Orbit.C15.trim_keeps_newest",
                   "Orbit.C15.load_lists_newest_n_of_a_chain", "Orbit.C15.load_one_head_never_panics", "Orbit.C15.estimated_trim_panicked_on_a_log_with_holes_before_the_fix", "Orbit.C15.the_second_join_of_load_is_a_trim", "Orbit.C15.load_more_lists_everything_fetched", "Orbit.C15.load_more_loaded_nothing_below_what_was_held_before_the_fix",
-                  "Orbit.C15.limit_normalisation_tied_to_go_text", "Orbit.C15.pinned_tree_panicked_or_emptied"],
+                  "Orbit.C15.limit_normalisation_tied_to_go_text", "Orbit.C15.pinned_tree_panicked_or_emptied", "Orbit.C15.load_steps_tied_to_go_text"],
         families=[("limit", 80, 2500, 12)],
         corr_fields={"values", "heads", "idx", "len", "load", "local", "remote"},
         nontrivial=lambda lines: any(l.startswith("op restart ") and len(l.split()) > 3 for l in lines),
@@ -257,7 +257,7 @@ PROPS = {
     "C18": dict(
         module="OrbitModel.Properties.C18",
         theorems=["Orbit.C18.close_order_tied_to_go_text", "Orbit.C18.close_is_idempotent", "Orbit.C18.second_close_is_noop", "Orbit.C18.event_channel_always_shuts_down",
-                  "Orbit.C18.closed_only_when_done", "Orbit.C18.pinned_tree_leaks_goroutine"],
+                  "Orbit.C18.closed_only_when_done", "Orbit.C18.pinned_tree_leaks_goroutine", "Orbit.C18.watcher_closes_its_subscription_tied_to_go_text"],
         families=[("close", 80, 2000, 6), ("events", 30, 600, 6)],
         corr_fields={"afterclose", "values", "load"},
         nontrivial=lambda lines: any(l.startswith("closed ") for l in lines) or any(l.startswith("eclosed ") for l in lines),
@@ -305,7 +305,7 @@ MANIFEST_TEXT = {
         note="Trusted: Lean kernel + standard axioms; the writers model abstracts the log to its length (entry k's ancestry is 1..k, from C01/C05); atomicity of the locked sections is assumed.",
         technique="Lean 4 proof (mutex protocol invariant over all schedules) with hook-steered concurrent harness"),
     "C18": dict(
-        text="Kernel-checked: the tear-down runs at most once under any sequence of Close/Drop/other calls and later calls return; the legacy event channel shuts down from EVERY reachable state once its context ends (and is closed only after both goroutines are done); the pinned lost wake-up is proved to hang for ever (replayed with a hook before the fix: commit). Reopening with all acknowledged data is C05's theorem. The harness closes stores idle / mid-replication / after concurrent bursts, calls every operation on the closed store under a deadline, takes a goroutine census, drops one of several databases.",
+        text="Kernel-checked: the tear-down runs at most once under any sequence of Close/Drop/other calls and later calls return; the legacy event channel shuts down from EVERY reachable state once its context ends (and is closed only after both goroutines are done); the pinned lost wake-up is proved to hang for ever (replayed with a hook before the fix: commit). Reopening with all acknowledged data is C05's theorem. The harness closes stores idle / mid-replication / after concurrent bursts, calls every operation on the closed store under a deadline, takes a goroutine census, drops one of several databases. Through the pubsubcoreapi adapter the census also counts the subscriptions of the underlying pubsub that are still open once every store is closed: before the fix: commit F39 the adapter never closed them (the node stayed on the topic; its peers saw it neither leave nor come back); the defer that closes them is regenerated from the Go text on every run.",
         note="Partial by nature: goroutine termination, hangs and OS-level directory effects are runtime facts sampled by the harness (census, deadlines), not proved; Drop's scope is checked on the in-memory cache manager that stands for the leveldb directories.",
         technique="Lean 4 proof (lifecycle state machine; emitter shutdown invariant) with deadline/census-based harness"),
     "C09": dict(
